@@ -31,6 +31,16 @@ Proof. exact builds_any. Qed.
 Theorem C17_vs_invariant : forall e a, builds e a -> expr_wf e -> inv_vs a.
 Proof. exact builds_inv. Qed.
 
+(* ... and therefore the outcome of add_range / add_value does not depend on the order in
+   which Python iterates its sets: permuted states give permuted results (this is what lets
+   the correspondence run compare internal states up to permutation). *)
+Theorem C17_add_range_order_independent : forall s s' lo hi,
+  inv s -> lo <= hi -> st_perm s s' -> st_perm (add_range s lo hi) (add_range s' lo hi).
+Proof. exact add_range_order_independent. Qed.
+Theorem C17_add_value_order_independent : forall s s' v,
+  st_perm s s' -> st_perm (add_value s v) (add_value s' v).
+Proof. exact add_value_order_independent. Qed.
+
 (* iter_values() lists exactly the members *)
 Theorem C17_iter_values_sem : forall s v, In v (st_iter_values s) <-> st_contains s v = true.
 Proof. exact iter_values_sem. Qed.
